@@ -117,3 +117,73 @@ package netsample
 //@ env pooltype(samplePool, *Sample)
 //@ ensures [a-blank-sample-with-the-tag] result != nil && fresh(result) && result.tags == tag && result.id == 0 && result.err == nil && forall(k, 0, 10, result.fields[k] == 0)
 //@ modifies nothing
+
+// ---------------------------------------------------------------- phout lines
+
+// "<unix seconds>.<milliseconds>": the decimal text of the millisecond timestamp with a dot before its last three digits,
+// appended after what dst already holds. (Any time at least one second after the epoch.)
+//@ func appendTimestamp
+//@ props C06
+//@ modifies nothing
+//@ requires ts >= 1000000000
+//@ ghost ms = ts / 1000000
+//@ ghost k = declen(ts / 1000000)
+//@ ghost n0 = len(dst)
+//@ loop 0 invariant len(dst) == n0 + k + 1 && dotIndex == n0 + k - 3 && dotIndex <= i && i <= n0 + k
+//@ loop 0 invariant [already-shifted] forall(p, i+1, n0+k+1, dst[p] == result_of(strconv.AppendInt, 0)[p-1])
+//@ loop 0 invariant [not-yet-touched] forall(p, 0, i+1, imp(p < n0 + k, dst[p] == result_of(strconv.AppendInt, 0)[p]))
+//@ ensures [length] len(result) == n0 + k + 1
+//@ ensures [earlier-bytes-kept] forall(p, 0, n0, result[p] == dst0[p])
+//@ ensures [seconds] forall(j, 0, k-3, result[n0+j] == decchar(ms, j))
+//@ ensures [dot] result[n0+k-3] == '.'
+//@ ensures [milliseconds] forall(j, k-3, k, result[n0+j+1] == decchar(ms, j))
+//@ at call strconv.AppendInt assert [millisecond-timestamp-in-decimal] arg(a0) == dst0 && arg(a1) == ts0 / 1000000 && arg(a2) == 10
+
+// One phout line body: timestamp, tab, tag (plus '#id' when ids are enabled), then the ten fields in index order, each after a tab.
+//@ func appendPhout
+//@ props C06
+//@ nilsafe
+//@ modifies nothing
+//@ requires s != nil && s.timeStamp >= 1000000000
+//@ at call appendTimestamp assert [starts-with-the-sample-time] arg(ts) == s.timeStamp && arg(dst) == dst0
+//@ at call strconv.AppendInt#0 assert [id-in-decimal] id && arg(a1) == s.id && arg(a2) == 10
+//@ at call strconv.AppendInt#1 assert [field-in-decimal] arg(a1) == v && arg(a2) == 10
+//@ loop 0 invariant [earlier-bytes-kept] len(dst) >= len(dst0) && forall(p, 0, len(dst0), dst[p] == dst0[p])
+//@ loop 0 step [one-tab-and-one-field-per-iteration] len(dst) == iter(len(dst)) + 1 + declen(s.fields[rangeidx-1]) && dst[iter(len(dst))] == 9
+//@ loop 0 step [earlier-bytes-kept] forall(p, 0, iter(len(dst)), dst[p] == iter(dst)[p])
+//@ loop 0 step [field-text] forall(j, 0, declen(s.fields[rangeidx-1]), dst[iter(len(dst)) + 1 + j] == decchar(s.fields[rangeidx-1], j))
+//@ ensures [earlier-bytes-kept] len(result) >= len(dst0) && forall(p, 0, len(dst0), result[p] == dst0[p])
+
+// ---------------------------------------------------------------- phout aggregator
+
+//@ event line_written flushed file_closed
+//@ ext (*bufio.Writer).Write
+//@ ensures ev(line_written) == old(ev(line_written)) + 1
+//@ modifies ev(line_written)
+//@ ext (*bufio.Writer).Flush
+//@ ensures ev(flushed) == old(ev(flushed)) + 1
+//@ modifies ev(flushed)
+
+// Every handled sample is written as exactly one line: the line body followed by a newline.
+//@ func (a *phoutAggregator) handle
+//@ props C06
+//@ nilsafe
+//@ requires a.writer != nil && s != nil && s.timeStamp >= 1000000000
+//@ ensures [one-write-per-sample] ev(line_written) == old(ev(line_written)) + 1
+//@ at call a.writer.Write assert [line-body-plus-newline] len(arg(a0)) == len(result_of(appendPhout, 0)) + 1 && arg(a0)[len(arg(a0))-1] == 10 && forall(p, 0, len(result_of(appendPhout, 0)), arg(a0)[p] == result_of(appendPhout, 0)[p])
+//@ at call appendPhout assert [line-of-this-sample] arg(s) == s0 && len(arg(dst)) == 0 && arg(id) == a.config.ID
+//@ requires len(a.buf) == 0
+//@ ensures [buffer-reset] len(a.buf) == 0
+//@ modifies a.buf, ev(line_written), s.tags, s.id, s.fields, s.err, s.timeStamp
+
+// The aggregator's run: every exit flushes the writer and closes the file; after the context is done the queue is drained.
+//@ func (a *phoutAggregator) Run
+//@ props C06
+//@ nilsafe
+//@ requires a.writer != nil && a.file != nil && a.sink != nil && len(a.buf) == 0 && ctx != nil
+//@ at call a.handle assume [reported-samples-are-stamped-by-time.Now] arg(s) != nil && arg(s).timeStamp >= 1000000000
+//@ loop 0 invariant len(a.buf) == 0 && a.writer == old(a.writer) && a.file == old(a.file) && a.sink == old(a.sink) && ev(closer_close) == old(ev(closer_close)) && imp(calls(a.handle) > 0, result_of(a.handle, 0) == nil)
+//@ loop 1 invariant len(a.buf) == 0 && a.writer == old(a.writer) && a.file == old(a.file) && a.sink == old(a.sink) && ev(closer_close) == old(ev(closer_close)) && imp(calls(a.handle) > 0, result_of(a.handle, 0) == nil)
+//@ ensures [flushed-and-closed-on-every-exit] ev(flushed) >= old(ev(flushed)) + 1 && ev(closer_close) == old(ev(closer_close)) + 1
+//@ ensures [write-failure-is-reported] imp(calls(a.handle) > 0 && result_of(a.handle, 0) != nil, result == result_of(a.handle, 0))
+//@ at call a.handle assert [every-received-sample-is-handled] arg(s) == result_of(<-a.sink, 0)
